@@ -1,6 +1,6 @@
 ---- MODULE MC_Repr ----
 EXTENDS Repr
-ShAll == {"kw", "pos2", "poskw", "closed"}
+ShAll == {"kw", "pos2", "poskw", "closed", "kwonly"}
 AV == {"0", "3", "neg", "inf", "big", "none"}
 AVq == {"0", "neg", "inf", "none"}
 BV == {"4", "7", "9", "none"}
